@@ -334,12 +334,40 @@ def parseRepoOps (ops : String) : Option (List Repo.Op) :=
       | _ => none
   ((ops.splitOn ";").foldl step (some (0, []))).map (·.2)
 
+/-- the history is run op by op so that "c:src:dst" (copy inside one repository = Append(dst, Get(src))) can be expanded
+    into the model's own Get and Append with the snapshots the model holds at that point; "z:name" (an asset that exists
+    without content) is an empty append -/
 def runRepo (impl ops : String) : String :=
-  match parseRepoOps ops with
+  let isSql := impl == "sql"
+  let step (st : Option (Nat × Repo.Store × Repo.Table × List String)) (op : String) :
+      Option (Nat × Repo.Store × Repo.Table × List String) :=
+    match st with
+    | none => none
+    | some (serial, s, t, out) =>
+      let run (o : Repo.Op) (serial' : Nat) : Option (Nat × Repo.Store × Repo.Table × List String) :=
+        if isSql then let (t', ob) := Repo.sqlStep t o; some (serial', s, t', out ++ [showObs ob])
+        else let (s', ob) := Repo.memStep s o; some (serial', s', t, out ++ [showObs ob])
+      match op.splitOn ":" with
+      | ["a", n, ds] =>
+        match parseNats (if ds.isEmpty then "-" else ds) with
+        | some days =>
+          let xs := (List.range days.length).map (fun i => ({ day := days.getD i 0, id := serial + i + 1 } : Snap))
+          run (Repo.Op.append n xs) (serial + days.length)
+        | none => none
+      | ["z", n] => run (Repo.Op.append n []) serial
+      | ["c", src, dst] =>
+        if isSql then run (Repo.Op.append dst (Repo.rowsOf t src)) serial
+        else match Repo.lookup s src with
+          | none => some (serial, s, t, out ++ ["err"])
+          | some xs => run (Repo.Op.append dst xs) serial
+      | ["g", n] => run (Repo.Op.get n) serial
+      | ["s", n, d] => (d.toNat?).bind (fun k => run (Repo.Op.since n k) serial)
+      | ["l", n] => run (Repo.Op.last n) serial
+      | ["A"] => run Repo.Op.assets serial
+      | _ => none
+  match (ops.splitOn ";").foldl step (some (0, [], [], [])) with
   | none => "ERR parse"
-  | some l =>
-    let obs := if impl == "sql" then Repo.runSql [] l else Repo.runMem [] l
-    "ok " ++ ";".intercalate (obs.map showObs)
+  | some (_, _, _, out) => "ok " ++ ";".intercalate out
 
 def parseSpec (spec : String) (serial : Nat) : Nat × Repo.Store :=
   if spec == "-" || spec.isEmpty then (serial, []) else
